@@ -101,13 +101,16 @@ Fixpoint tr_eb (r : tr_reader) : bool :=
   | TrComputed r' _ _ => tr_eb r'
   end.
 
-(* well-formed readers (for chunk size c):  tables are tables; the Parquet batch oracle keeps its
-   contract; renaming keeps names distinct; joined members have the same number of rows and distinct
-   names; a computed column has a fresh name and its function works row by row *)
+(* well-formed readers (for chunk size c):  tables are tables; a Parquet file has at least one column (pyarrow
+   keeps no rows for a table without columns) and the batch oracle keeps its contract for a non-empty projection
+   (the reader never asks pyarrow for an empty one: columns=[] reads the first column and drops it); renaming keeps
+   names distinct; joined members have the same number of rows and distinct names; a computed column has a fresh
+   name and its function works row by row *)
 Inductive tr_wf (c : nat) : tr_reader -> Prop :=
 | wf_frame t : tb_wf t -> tr_wf c (TrFrame t)
 | wf_csv t : tb_wf t -> tr_wf c (TrCsv t)
-| wf_parquet t bl bl0 : tb_wf t -> ch_batches_ok c (length (tb_rows t)) bl -> tr_wf c (TrParquet t bl bl0)
+| wf_parquet t bl bl0 : tb_wf t -> tb_names t <> [] -> ch_batches_ok c (length (tb_rows t)) bl ->
+                        tr_wf c (TrParquet t bl bl0)
 | wf_mapped r m : tr_wf c r -> NoDup (map (tr_rename m) (tr_names r)) -> tr_wf c (TrMapped r m)
 | wf_joined rs : rs <> [] -> Forall (tr_wf c) rs ->
                  (forall r, In r rs -> tr_nrows r = tr_nrows (TrJoined rs)) ->
@@ -116,20 +119,15 @@ Inductive tr_wf (c : nat) : tr_reader -> Prop :=
                         (forall names rows, f names rows = Ok (map (g names) rows)) ->
                         tr_wf c (TrComputed r k f).
 
-(* admissible requests: every file leaf is asked for at least one of its columns
-   (CSV: usecols=[] parses no row;  Parquet: without a projected column pyarrow does not re-chunk) *)
-Inductive tr_req : tr_reader -> list nat -> Prop :=
-| rq_frame t cs : tr_req (TrFrame t) cs
-| rq_csv t cs : cs <> [] -> tr_req (TrCsv t) cs
-| rq_parquet t bl bl0 cs : cs <> [] -> tr_req (TrParquet t bl bl0) cs
-| rq_mapped r m cs ocs :
-    tr_orig_cols (combine (map (tr_rename m) (tr_names r)) (tr_names r)) cs = Some ocs ->
-    tr_req r ocs -> tr_req (TrMapped r m) cs
-| rq_joined rs cs : (forall r, In r rs -> tr_req r (tr_sub (tr_names r) cs)) -> tr_req (TrJoined rs) cs
-| rq_computed r k f cs : tr_req r (tr_without k cs) -> tr_req (TrComputed r k f) cs.
+(* (Before the repair of the leaf readers (/repo 37b7b88, 79a1472) a predicate tr_req stood here: "every CSV / Parquet
+   leaf is asked for at least one of its columns".  It is gone: an empty column list now yields all rows without columns,
+   so every duplicate-free request of known columns is admissible.) *)
 
-(* the function of a computed column only sees the requested columns: it must not depend on the others
-   (nothing is asked of it when its column is not requested: it is not called then) *)
+(* STILL NEEDED, and only for the statements that name the table a tree stands for (tr_select / tr_drows): the function
+   of a computed column only sees the requested columns (the inner reader is read with columns = requested minus k), so
+   it must not depend on the others — a func that looks at a column that was not requested computes something else (or
+   raises KeyError) than on the whole table.  Nothing is asked of it when its column is not requested (it is not called
+   then), nothing of leaves.  "chunked = whole" (tr_reader_chunks_eq_read) does not need it. *)
 Inductive tr_req_inv : tr_reader -> list nat -> Prop :=
 | ri_frame t cs : tr_req_inv (TrFrame t) cs
 | ri_csv t cs : tr_req_inv (TrCsv t) cs
@@ -297,23 +295,102 @@ Proof.
   rewrite tr_sel_as_fr_map. simpl. rewrite tr_fr_map_whole, ch_select_names_id by assumption. reflexivity.
 Qed.
 
-(* ---------- Parquet: enumerate(iter_batches) under the batch contract = the chunks ---------- *)
-Lemma tr_pq_frames_chunks c N : forall fuel i (l : list (list Z)),
-  tr_pq_frames c i N (map snd (ch_chunks_at fuel c (i * c) l))
+(* ---------- Parquet: iter_batches with a running offset ---------- *)
+(* under the batch contract the frames are the chunks: the running offset and pos + c only differ after the last chunk *)
+Lemma tr_chunks_at_nil {A} fuel c pos : @ch_chunks_at A fuel c pos [] = [].
+Proof. destruct fuel; reflexivity. Qed.
+
+Lemma tr_pq_frames_chunks c N : forall fuel pos (l : list (list Z)),
+  tr_pq_frames pos N (map snd (ch_chunks_at fuel c pos l))
   = map (fun p => {| ch_index := seq (fst p) (length (snd p)); ch_names := N; ch_rows := snd p |})
-        (ch_chunks_at fuel c (i * c) l).
+        (ch_chunks_at fuel c pos l).
 Proof.
-  intros fuel. induction fuel as [|f IH]; intros i l; [reflexivity|].
+  intros fuel. induction fuel as [|f IH]; intros pos l; [reflexivity|].
   destruct l as [|x l]; [reflexivity|].
   cbn [ch_chunks_at map snd fst tr_pq_frames]. f_equal.
-  replace (i * c + c) with (S i * c) by (simpl; lia). apply IH.
+  destruct (skipn c (x :: l)) as [|y rest] eqn:E.
+  - rewrite !tr_chunks_at_nil. reflexivity.
+  - assert (Hl : length (firstn c (x :: l)) = c).
+    { rewrite firstn_length. assert (Hs := skipn_length c (x :: l)). rewrite E in Hs. cbn [length] in *. lia. }
+    rewrite Hl. apply IH.
 Qed.
 
 Lemma tr_pq_frames_ok c N R bl : 0 < c -> ch_batches_ok c (length R) bl ->
-  tr_pq_frames c 0 N (ch_split_by bl R) = ch_frames c N R.
+  tr_pq_frames 0 N (ch_split_by bl R) = ch_frames c N R.
 Proof.
-  intros Hc Hok. rewrite (ch_split_by_chunks c Hc bl (length R) (0 * c) R Hok) by lia.
+  intros Hc Hok. rewrite (ch_split_by_chunks c Hc bl (length R) 0 R Hok) by lia.
   rewrite tr_pq_frames_chunks. reflexivity.
+Qed.
+
+(* for ANY batch lengths (short batches in the middle, empty batches): what the running offset buys *)
+(* the index of every chunk starts at the number of rows of the chunks before it *)
+Definition tr_continues (chs : list ch_frame) : Prop :=
+  forall i f, nth_error chs i = Some f ->
+    ch_index f = seq (length (flat_map ch_rows (firstn i chs))) (length (ch_rows f)).
+
+Lemma tr_pq_frames_continues N : forall (bs : list (list (list Z))) off i f,
+  nth_error (tr_pq_frames off N bs) i = Some f ->
+  ch_index f = seq (off + length (flat_map ch_rows (firstn i (tr_pq_frames off N bs)))) (length (ch_rows f)).
+Proof.
+  intros bs. induction bs as [|b bs IH]; intros off i f Hi.
+  - destruct i; discriminate.
+  - cbn [tr_pq_frames] in *. destruct i as [|i].
+    + inversion Hi; subst. cbn [firstn flat_map length ch_index ch_rows]. rewrite Nat.add_0_r. reflexivity.
+    + cbn [nth_error] in Hi. rewrite (IH _ _ _ Hi).
+      cbn [firstn flat_map ch_rows]. rewrite app_length. f_equal. lia.
+Qed.
+
+Lemma tr_pq_frames_names N bs : forall off, Forall (fun f => ch_names f = N) (tr_pq_frames off N bs).
+Proof. induction bs as [|b bs IH]; intros off; cbn [tr_pq_frames]; constructor; [reflexivity | apply IH]. Qed.
+
+Lemma tr_pq_frames_rows N bs : forall off, map ch_rows (tr_pq_frames off N bs) = bs.
+Proof. induction bs as [|b bs IH]; intros off; cbn [tr_pq_frames map ch_rows]; [reflexivity|]. rewrite IH. reflexivity. Qed.
+
+Lemma tr_pq_frames_index N : forall (bs : list (list (list Z))) off,
+  flat_map ch_index (tr_pq_frames off N bs) = seq off (length (concat bs)).
+Proof.
+  intros bs. induction bs as [|b bs IH]; intros off; [reflexivity|].
+  cbn [tr_pq_frames flat_map ch_index concat]. rewrite IH, app_length, seq_app. reflexivity.
+Qed.
+
+Lemma tr_flat_map_concat {A B} (f : A -> list B) l : flat_map f l = concat (map f l).
+Proof. induction l as [|x l IH]; [reflexivity|]. simpl. rewrite IH. reflexivity. Qed.
+
+Lemma tr_split_by_lengths {A} : forall bl (l : list A), fold_right Nat.add 0 bl = length l ->
+  map (@length A) (ch_split_by bl l) = bl.
+Proof.
+  induction bl as [|b bl IH]; intros l H; [reflexivity|]. cbn [fold_right] in H.
+  cbn [ch_split_by map]. rewrite firstn_length, IH by (rewrite skipn_length; lia). f_equal. lia.
+Qed.
+
+(* batches summing to the number of rows: the frames concatenate to the whole table, index 0..n-1 *)
+Lemma tr_pq_frames_concat N R bl : fold_right Nat.add 0 bl = length R ->
+  ch_concat N (tr_pq_frames 0 N (ch_split_by bl R)) = ch_whole N R.
+Proof.
+  intros H. unfold ch_concat, ch_whole.
+  assert (Hc := ch_split_by_concat bl R H).
+  f_equal.
+  - rewrite tr_pq_frames_index, Hc. reflexivity.
+  - destruct bl; reflexivity.
+  - rewrite tr_flat_map_concat, tr_pq_frames_rows. exact Hc.
+Qed.
+
+(* df[cs] on every batch = the batches of df[cs] *)
+Lemma tr_sel_pq_frames cs N : NoDup N -> incl cs N -> forall bl off (R : list (list Z)),
+  map (ch_sel cs) (tr_pq_frames off N (ch_split_by bl R))
+  = tr_pq_frames off cs (ch_split_by bl (map (ch_select_row N cs) R)).
+Proof.
+  intros Hnd Hincl bl. induction bl as [|b bl IH]; intros off R; [reflexivity|].
+  cbn [ch_split_by tr_pq_frames map]. rewrite skipn_map, firstn_map, map_length, <- IH.
+  f_equal. unfold ch_sel. cbn [ch_index ch_names ch_rows].
+  rewrite ch_select_names_id by assumption. reflexivity.
+Qed.
+
+(* which batch lengths: a duplicate-free request of known columns of a file with columns is never an empty projection *)
+Lemma tr_pq_lens_known N cs bl bl0 : N <> [] -> incl cs N -> tr_pq_lens N cs cs bl bl0 = bl.
+Proof.
+  intros HN Hincl. unfold tr_pq_lens. destruct cs as [|x cs]; [|reflexivity].
+  destruct N; [congruence | reflexivity].
 Qed.
 
 Lemma tr_dedup_nodup l : NoDup l -> tr_dedup l = l.
@@ -649,7 +726,7 @@ End Computed.
 (* ---------- names of well-formed readers are distinct ---------- *)
 Lemma tr_wf_names_nodup c r : tr_wf c r -> NoDup (tr_names r).
 Proof.
-  intros H. induction H as [t Ht|t Ht|t bl bl0 Ht Hb|r m Hr IH Hnd|rs Hne Hall Hn Hnd|r k f g Hr IH Hk Hf];
+  intros H. induction H as [t Ht|t Ht|t bl bl0 Ht Hne0 Hb|r m Hr IH Hnd|rs Hne Hall Hn Hnd|r k f g Hr IH Hk Hf];
     cbn [tr_names]; try (apply Ht); try assumption.
   apply tr_nodup_app_intro; [exact IH | repeat constructor; intros [] |].
   intros x Hx [<-|[]]. contradiction.
@@ -669,7 +746,7 @@ Qed.
 
 (* ================= stage 1: the model agrees with tr_rows, chunked and whole ================= *)
 Definition tr_stage1 (c : nat) (r : tr_reader) : Prop :=
-  forall cs, NoDup cs -> incl cs (tr_names r) -> tr_req r cs ->
+  forall cs, NoDup cs -> incl cs (tr_names r) ->
     tr_read r (Some cs) = Ok (ch_whole cs (tr_rows r cs))
     /\ tr_stream r c (Some cs) = tr_sform c cs (tr_rows r cs) (tr_eb r)
     /\ length (tr_rows r cs) = tr_nrows r
@@ -684,7 +761,7 @@ Qed.
 
 Lemma tr_stage1_frame c t : 0 < c -> tr_wf c (TrFrame t) -> tr_stage1 c (TrFrame t).
 Proof.
-  intros Hc Hwf cs Hnd Hincl Hreq. inversion Hwf as [t' [Hn Hr]| | | | |]; subst.
+  intros Hc Hwf cs Hnd Hincl. inversion Hwf as [t' [Hn Hr]| | | | |]; subst.
   cbn [tr_names] in Hincl. repeat split.
   - cbn [tr_read tr_rows]. apply tr_select_whole; assumption.
   - cbn [tr_stream tr_rows tr_eb].
@@ -696,14 +773,12 @@ Qed.
 
 Lemma tr_stage1_csv c t : 0 < c -> tr_wf c (TrCsv t) -> tr_stage1 c (TrCsv t).
 Proof.
-  intros Hc Hwf cs Hnd Hincl Hreq. inversion Hwf as [|t' [Hn Hr]| | | |]; subst.
-  inversion Hreq as [|? ? Hne| | | |]; subst.
+  intros Hc Hwf cs Hnd Hincl. inversion Hwf as [|t' [Hn Hr]| | | |]; subst.
   cbn [tr_names] in Hincl. repeat split.
-  - cbn [tr_read tr_rows]. destruct cs as [|x cs]; [congruence|]. apply tr_select_whole; assumption.
+  - cbn [tr_read tr_rows]. apply tr_select_whole; assumption.
   - cbn [tr_stream tr_rows tr_eb].
     assert (E : Nat.eqb c 0 = false) by (apply Nat.eqb_neq; lia). rewrite E.
     assert (Hk : ch_known (tb_names t) cs = true) by (apply ch_known_incl; exact Hincl). rewrite Hk.
-    destruct cs as [|x cs]; [congruence|].
     rewrite tr_csv_frames_sform, tr_sel_sform by assumption. reflexivity.
   - cbn [tr_rows tr_nrows]. apply map_length.
   - cbn [tr_rows]. apply tr_leaf_widths; assumption.
@@ -711,15 +786,14 @@ Qed.
 
 Lemma tr_stage1_parquet c t bl bl0 : 0 < c -> tr_wf c (TrParquet t bl bl0) -> tr_stage1 c (TrParquet t bl bl0).
 Proof.
-  intros Hc Hwf cs Hnd Hincl Hreq. inversion Hwf as [| |t' bl' bl0' [Hn Hr] Hb| | |]; subst.
-  inversion Hreq as [| |? ? ? ? Hne| | |]; subst.
+  intros Hc Hwf cs Hnd Hincl. inversion Hwf as [| |t' bl' bl0' [Hn Hr] Hne Hb| | |]; subst.
   cbn [tr_names] in Hincl. repeat split.
   - cbn [tr_read tr_rows]. apply tr_select_whole; assumption.
   - cbn [tr_stream tr_rows tr_eb].
     assert (E : Nat.eqb c 0 = false) by (apply Nat.eqb_neq; lia). rewrite E.
     rewrite tr_filter_known by exact Hincl. rewrite tr_dedup_nodup by exact Hnd.
-    destruct cs as [|x cs]; [congruence|].
-    rewrite tr_pq_frames_ok by assumption.
+    rewrite tr_pq_lens_known by assumption.
+    rewrite (tr_pq_frames_ok c) by assumption.
     rewrite ch_sel_frames, ch_select_names_id by assumption.
     rewrite tr_sform_false. reflexivity.
   - cbn [tr_rows tr_nrows]. apply map_length.
@@ -728,12 +802,13 @@ Qed.
 
 Lemma tr_stage1_mapped c r m : 0 < c -> tr_stage1 c r -> tr_wf c (TrMapped r m) -> tr_stage1 c (TrMapped r m).
 Proof.
-  intros Hc IH Hwf cs Hnd Hincl Hreq.
+  intros Hc IH Hwf cs Hnd Hincl.
   inversion Hwf as [| | |r' m' Hr Hndm| |]; subst.
-  inversion Hreq as [| | |r' m' cs' ocs Horig Hreq'| |]; subst.
+  cbn [tr_names] in Hincl.
+  destruct (tr_orig_cols_total (tr_rename m) (tr_names r) cs Hndm Hincl) as [ocs Horig].
   destruct (tr_orig_cols_spec _ _ _ _ Horig) as [Hmap Hio].
   assert (Hndo : NoDup ocs) by (apply (NoDup_map_inv (tr_rename m)); rewrite Hmap; exact Hnd).
-  destruct (IH ocs Hndo Hio Hreq') as [Hread [Hstream [Hlen Hw]]].
+  destruct (IH ocs Hndo Hio) as [Hread [Hstream [Hlen Hw]]].
   repeat split.
   - cbn [tr_read tr_rows]. rewrite Horig, Hread. unfold tr_rename_frame, ch_whole. simpl. rewrite Hmap. reflexivity.
   - cbn [tr_stream tr_rows tr_eb]. rewrite Horig, Hstream. cbn [snd].
@@ -745,9 +820,8 @@ Qed.
 Lemma tr_stage1_computed c r k f : 0 < c -> tr_stage1 c r -> tr_wf c (TrComputed r k f) ->
   tr_stage1 c (TrComputed r k f).
 Proof.
-  intros Hc IH Hwf cs Hnd Hincl Hreq.
+  intros Hc IH Hwf cs Hnd Hincl.
   inversion Hwf as [| | | | |r' k' f' g Hr Hk Hf]; subst.
-  inversion Hreq as [| | | | |r' k' f' cs' Hreq']; subst.
   cbn [tr_names] in Hincl.
   set (cs' := tr_without k cs) in *.
   assert (Hnd' : NoDup cs') by (apply tr_without_nodup; exact Hnd).
@@ -762,7 +836,7 @@ Proof.
   assert (Hnd2 : NoDup (cs' ++ [k])).
   { apply tr_nodup_app_intro; [exact Hnd' | repeat constructor; intros [] |].
     intros x Hx [<-|[]]. contradiction. }
-  destruct (IH cs' Hnd' Hincl' Hreq') as [Hread [Hstream [Hlen Hw]]].
+  destruct (IH cs' Hnd' Hincl') as [Hread [Hstream [Hlen Hw]]].
   rewrite (tr_rows_computed k f g Hf).
   repeat split.
   - cbn [tr_read]. fold cs'. rewrite Hread. destruct (ch_mem k cs) eqn:Hm.
@@ -787,9 +861,8 @@ Definition tr_member (cs : list nat) (r : tr_reader) : tr_mem :=
 Lemma tr_stage1_joined c rs : 0 < c -> Forall (fun r => tr_wf c r -> tr_stage1 c r) rs ->
   tr_wf c (TrJoined rs) -> tr_stage1 c (TrJoined rs).
 Proof.
-  intros Hc IH Hwf cs Hnd Hincl Hreq.
+  intros Hc IH Hwf cs Hnd Hincl.
   inversion Hwf as [| | | |rs' Hne Hall Hn Hndn|]; subst.
-  inversion Hreq as [| | | |rs' cs' Hreqs|]; subst.
   cbn [tr_names] in Hincl.
   (* facts about every member *)
   assert (Hmem : forall r, In r rs ->
@@ -803,7 +876,6 @@ Proof.
     destruct (IH r Hr Hwr (tr_sub (tr_names r) cs)) as [H1 [H2 [H3 H4]]].
     - apply tr_sub_nodup. apply (tr_wf_names_nodup c). exact Hwr.
     - apply tr_sub_incl.
-    - apply Hreqs. exact Hr.
     - unfold tr_member, tr_mN, tr_mR, tr_mb. cbn [fst snd]. rewrite <- (Hn r Hr). auto. }
   destruct rs as [|r0 rs']; [congruence|].
   set (subs := flat_map (fun r' => tr_sub (tr_names r') cs) (r0 :: rs')).
@@ -863,13 +935,13 @@ Qed.
 
 (* a computed column that is not requested costs nothing and cannot fail: func is not called, whatever it is
    (no row-wise contract needed) — reading through the computed reader is reading the inner reader *)
-Theorem tr_computed_skip c r k f cs : 0 < c -> tr_wf c r -> NoDup cs -> incl cs (tr_names r) -> tr_req r cs ->
+Theorem tr_computed_skip c r k f cs : 0 < c -> tr_wf c r -> NoDup cs -> incl cs (tr_names r) ->
   ~ In k cs ->
   tr_read (TrComputed r k f) (Some cs) = tr_read r (Some cs)
   /\ tr_stream (TrComputed r k f) c (Some cs) = tr_stream r c (Some cs).
 Proof.
-  intros Hc Hwf Hnd Hincl Hreq Hk.
-  destruct (tr_stage1_all c Hc r Hwf cs Hnd Hincl Hreq) as [Hread [Hstream [_ Hw]]].
+  intros Hc Hwf Hnd Hincl Hk.
+  destruct (tr_stage1_all c Hc r Hwf cs Hnd Hincl) as [Hread [Hstream [_ Hw]]].
   assert (Hm : ch_mem k cs = false) by (apply ch_mem_false; exact Hk).
   assert (Hid : map (ch_select_row cs cs) (tr_rows r cs) = tr_rows r cs).
   { rewrite <- (map_id (tr_rows r cs)) at 2. apply map_ext_in. intros row Hrow. rewrite Forall_forall in Hw.
@@ -973,7 +1045,7 @@ Proof.
   induction r as [t|t|t bl bl0|r m IH|rs IH|r k f IH] using tr_reader_ind'; intros Hwf.
   - inversion Hwf as [t' [_ Hr]| | | | |]; subst. split; [exact Hr | reflexivity].
   - inversion Hwf as [|t' [_ Hr]| | | |]; subst. split; [exact Hr | reflexivity].
-  - inversion Hwf as [| |t' ? ? [_ Hr] _| | |]; subst. split; [exact Hr | reflexivity].
+  - inversion Hwf as [| |t' ? ? [_ Hr] _ _| | |]; subst. split; [exact Hr | reflexivity].
   - inversion Hwf as [| | |r' m' Hr _| |]; subst. destruct (IH Hr) as [H1 H2].
     cbn [tr_names tr_drows tr_nrows]. rewrite map_length. split; assumption.
   - inversion Hwf as [| | | |rs' Hne Hall Hn Hnd|]; subst.
@@ -1112,18 +1184,20 @@ Proof.
 Qed.
 
 (* ================= the reader theorems ================= *)
-(* for every well-formed reader tree, every chunk size >= 1 and every admissible request: the chunked
-   read succeeds and is a chunked delivery of the whole read, which is the requested columns (in the
-   requested order) of the table the reader stands for *)
+(* for every well-formed reader tree, every chunk size >= 1 and every duplicate-free request of known columns
+   (the empty request included): the chunked read succeeds and is a chunked delivery of the whole read, which is
+   the requested columns (in the requested order) of the table the reader stands for.
+   tr_req_inv is the one hypothesis about requests that remains: a computed function whose column is requested must
+   not depend on columns that are not (it does not see them); it is empty for trees without computed readers. *)
 Theorem tr_reader_ok c r cs : 0 < c -> tr_wf c r -> NoDup cs -> incl cs (tr_names r) ->
-  tr_req r cs -> tr_req_inv r cs ->
+  tr_req_inv r cs ->
   exists chs, tr_chunks r c (Some cs) = Ok chs
     /\ tr_read r (Some cs) = Ok (ch_whole cs (tr_select r cs))
     /\ tr_chunked c cs (tr_select r cs) chs
     /\ length (tr_select r cs) = tr_nrows r.
 Proof.
-  intros Hc Hwf Hnd Hincl Hreq Hinv.
-  destruct (tr_stage1_all c Hc r Hwf cs Hnd Hincl Hreq) as [Hread [Hstream [Hlen _]]].
+  intros Hc Hwf Hnd Hincl Hinv.
+  destruct (tr_stage1_all c Hc r Hwf cs Hnd Hincl) as [Hread [Hstream [Hlen _]]].
   rewrite (tr_stage2_all c r Hwf cs Hnd Hincl Hinv) in *.
   exists (fst (tr_sform c cs (tr_select r cs) (tr_eb r))). split; [|split; [|split]].
   - unfold tr_chunks. rewrite Hstream. reflexivity.
@@ -1132,15 +1206,15 @@ Proof.
   - exact Hlen.
 Qed.
 
-(* chunked = whole needs no assumption on what computed functions look at, only that they work row by row *)
+(* chunked = whole needs no assumption on the request beyond "known columns, none twice", and none on what computed
+   functions look at, only that they work row by row: for EVERY well-formed tree *)
 Theorem tr_reader_chunks_eq_read c r cs : 0 < c -> tr_wf c r -> NoDup cs -> incl cs (tr_names r) ->
-  tr_req r cs ->
   exists chs whole, tr_chunks r c (Some cs) = Ok chs /\ tr_read r (Some cs) = Ok whole
     /\ ch_names whole = cs /\ ch_index whole = seq 0 (tr_nrows r) /\ length (ch_rows whole) = tr_nrows r
     /\ tr_chunked c cs (ch_rows whole) chs.
 Proof.
-  intros Hc Hwf Hnd Hincl Hreq.
-  destruct (tr_stage1_all c Hc r Hwf cs Hnd Hincl Hreq) as [Hread [Hstream [Hlen _]]].
+  intros Hc Hwf Hnd Hincl.
+  destruct (tr_stage1_all c Hc r Hwf cs Hnd Hincl) as [Hread [Hstream [Hlen _]]].
   exists (fst (tr_sform c cs (tr_rows r cs) (tr_eb r))), (ch_whole cs (tr_rows r cs)).
   split; [|split; [|split; [|split; [|split]]]].
   - unfold tr_chunks. rewrite Hstream. reflexivity.
@@ -1158,34 +1232,86 @@ Theorem tr_reader_frame c t cs : 0 < c -> tb_wf t -> NoDup cs -> incl cs (tb_nam
     /\ tr_chunked c cs (map (ch_select_row (tb_names t) cs) (tb_rows t)) chs.
 Proof.
   intros Hc Ht Hnd Hincl.
-  destruct (tr_reader_ok c (TrFrame t) cs Hc (wf_frame c t Ht) Hnd Hincl (rq_frame t cs) (ri_frame t cs))
+  destruct (tr_reader_ok c (TrFrame t) cs Hc (wf_frame c t Ht) Hnd Hincl (ri_frame t cs))
     as [chs [H1 [H2 [H3 _]]]].
   exists chs. auto.
 Qed.
 
-Theorem tr_reader_csv c t cs : 0 < c -> tb_wf t -> NoDup cs -> incl cs (tb_names t) -> cs <> [] ->
+(* (cs = [] included: all rows, no column) *)
+Theorem tr_reader_csv c t cs : 0 < c -> tb_wf t -> NoDup cs -> incl cs (tb_names t) ->
   exists chs, tr_chunks (TrCsv t) c (Some cs) = Ok chs
     /\ tr_read (TrCsv t) (Some cs) = Ok (ch_whole cs (map (ch_select_row (tb_names t) cs) (tb_rows t)))
     /\ tr_chunked c cs (map (ch_select_row (tb_names t) cs) (tb_rows t)) chs.
 Proof.
-  intros Hc Ht Hnd Hincl Hne.
-  destruct (tr_reader_ok c (TrCsv t) cs Hc (wf_csv c t Ht) Hnd Hincl (rq_csv t cs Hne) (ri_csv t cs))
+  intros Hc Ht Hnd Hincl.
+  destruct (tr_reader_ok c (TrCsv t) cs Hc (wf_csv c t Ht) Hnd Hincl (ri_csv t cs))
     as [chs [H1 [H2 [H3 _]]]].
   exists chs. auto.
 Qed.
 
-(* Parquet: for every batch-length oracle that keeps the contract *)
-Theorem tr_reader_parquet c t bl bl0 cs : 0 < c -> tb_wf t -> ch_batches_ok c (length (tb_rows t)) bl ->
-  NoDup cs -> incl cs (tb_names t) -> cs <> [] ->
+(* Parquet: for every batch-length oracle that keeps the contract for non-empty projections (cs = [] included: the
+   reader projects the first column of the file, which therefore must exist, and drops it) *)
+Theorem tr_reader_parquet c t bl bl0 cs : 0 < c -> tb_wf t -> tb_names t <> [] ->
+  ch_batches_ok c (length (tb_rows t)) bl -> NoDup cs -> incl cs (tb_names t) ->
   exists chs, tr_chunks (TrParquet t bl bl0) c (Some cs) = Ok chs
     /\ tr_read (TrParquet t bl bl0) (Some cs) = Ok (ch_whole cs (map (ch_select_row (tb_names t) cs) (tb_rows t)))
     /\ tr_chunked c cs (map (ch_select_row (tb_names t) cs) (tb_rows t)) chs.
 Proof.
-  intros Hc Ht Hb Hnd Hincl Hne.
-  destruct (tr_reader_ok c (TrParquet t bl bl0) cs Hc (wf_parquet c t bl bl0 Ht Hb) Hnd Hincl
-                         (rq_parquet t bl bl0 cs Hne) (ri_parquet t bl bl0 cs))
+  intros Hc Ht Hne Hb Hnd Hincl.
+  destruct (tr_reader_ok c (TrParquet t bl bl0) cs Hc (wf_parquet c t bl bl0 Ht Hne Hb) Hnd Hincl
+                         (ri_parquet t bl bl0 cs))
     as [chs [H1 [H2 [H3 _]]]].
   exists chs. auto.
+Qed.
+
+(* Parquet WITHOUT the batch contract (what the running offset buys): for ANY batch lengths that sum to the number of
+   rows — short batches in the middle, empty batches — the chunked read concatenates to the whole read (rows, row order,
+   index 0..n-1), every chunk has the requested columns, the index of every chunk continues where the chunk before it
+   ended, and the chunks have the lengths of the batches.  (Only "all chunks but the last have c rows" needs the contract.) *)
+Theorem tr_reader_parquet_any_batches c t bl bl0 cs : 0 < c -> tb_wf t -> tb_names t <> [] ->
+  fold_right Nat.add 0 bl = length (tb_rows t) -> NoDup cs -> incl cs (tb_names t) ->
+  exists chs, tr_chunks (TrParquet t bl bl0) c (Some cs) = Ok chs
+    /\ tr_read (TrParquet t bl bl0) (Some cs) = Ok (ch_whole cs (map (ch_select_row (tb_names t) cs) (tb_rows t)))
+    /\ ch_concat cs chs = ch_whole cs (map (ch_select_row (tb_names t) cs) (tb_rows t))
+    /\ Forall (fun f => ch_names f = cs) chs
+    /\ tr_continues chs
+    /\ map (fun f => length (ch_rows f)) chs = bl.
+Proof.
+  intros Hc [Hn Hr] Hne Hsum Hnd Hincl.
+  set (R := map (ch_select_row (tb_names t) cs) (tb_rows t)).
+  assert (HsumR : fold_right Nat.add 0 bl = length R) by (unfold R; rewrite map_length; exact Hsum).
+  exists (tr_pq_frames 0 cs (ch_split_by bl R)). split; [|split; [|split; [|split; [|split]]]].
+  - unfold tr_chunks. cbn [tr_stream].
+    assert (E : Nat.eqb c 0 = false) by (apply Nat.eqb_neq; lia). rewrite E.
+    rewrite tr_filter_known by exact Hincl. rewrite tr_dedup_nodup by exact Hnd.
+    rewrite tr_pq_lens_known by assumption.
+    rewrite tr_sel_pq_frames by assumption. reflexivity.
+  - cbn [tr_read]. apply tr_select_whole; assumption.
+  - apply tr_pq_frames_concat. exact HsumR.
+  - apply tr_pq_frames_names.
+  - intros i f Hi. apply (tr_pq_frames_continues cs (ch_split_by bl R) 0 i f Hi).
+  - rewrite <- (map_map ch_rows (@length (list Z))), tr_pq_frames_rows. apply tr_split_by_lengths. exact HsumR.
+Qed.
+
+(* the same for columns=None *)
+Theorem tr_reader_parquet_any_batches_none c t bl bl0 : 0 < c ->
+  fold_right Nat.add 0 bl = length (tb_rows t) ->
+  exists chs, tr_chunks (TrParquet t bl bl0) c None = Ok chs
+    /\ tr_read (TrParquet t bl bl0) None = Ok (ch_whole (tb_names t) (tb_rows t))
+    /\ ch_concat (tb_names t) chs = ch_whole (tb_names t) (tb_rows t)
+    /\ Forall (fun f => ch_names f = tb_names t) chs
+    /\ tr_continues chs
+    /\ map (fun f => length (ch_rows f)) chs = bl.
+Proof.
+  intros Hc Hsum.
+  exists (tr_pq_frames 0 (tb_names t) (ch_split_by bl (tb_rows t))). split; [|split; [|split; [|split; [|split]]]].
+  - unfold tr_chunks. cbn [tr_stream].
+    assert (E : Nat.eqb c 0 = false) by (apply Nat.eqb_neq; lia). rewrite E. reflexivity.
+  - reflexivity.
+  - apply tr_pq_frames_concat. exact Hsum.
+  - apply tr_pq_frames_names.
+  - intros i f Hi. apply (tr_pq_frames_continues (tb_names t) (ch_split_by bl (tb_rows t)) 0 i f Hi).
+  - rewrite <- (map_map ch_rows (@length (list Z))), tr_pq_frames_rows. apply tr_split_by_lengths. exact Hsum.
 Qed.
 
 (* ColumnMappedReader over any well-formed reader: every request within the new names is served *)
@@ -1193,7 +1319,7 @@ Theorem tr_reader_mapped c r m cs : 0 < c -> tr_wf c r -> NoDup (map (tr_rename 
   NoDup cs -> incl cs (map (tr_rename m) (tr_names r)) ->
   exists ocs, tr_orig_cols (combine (map (tr_rename m) (tr_names r)) (tr_names r)) cs = Some ocs
     /\ map (tr_rename m) ocs = cs
-    /\ (tr_req r ocs -> tr_req_inv r ocs ->
+    /\ (tr_req_inv r ocs ->
         exists chs, tr_chunks (TrMapped r m) c (Some cs) = Ok chs
           /\ tr_read (TrMapped r m) (Some cs) = Ok (ch_whole cs (tr_select r ocs))
           /\ tr_chunked c cs (tr_select r ocs) chs).
@@ -1201,9 +1327,9 @@ Proof.
   intros Hc Hwf Hndm Hnd Hincl.
   destruct (tr_orig_cols_total (tr_rename m) (tr_names r) cs Hndm Hincl) as [ocs Hocs].
   destruct (tr_orig_cols_spec _ _ _ _ Hocs) as [Hmap Hio].
-  exists ocs. split; [exact Hocs|]. split; [exact Hmap|]. intros Hreq Hinv.
+  exists ocs. split; [exact Hocs|]. split; [exact Hmap|]. intros Hinv.
   destruct (tr_reader_ok c (TrMapped r m) cs Hc (wf_mapped c r m Hwf Hndm) Hnd Hincl
-                         (rq_mapped r m cs ocs Hocs Hreq) (ri_mapped r m cs ocs Hocs Hinv))
+                         (ri_mapped r m cs ocs Hocs Hinv))
     as [chs [H1 [H2 [H3 _]]]].
   assert (E : tr_select (TrMapped r m) cs = tr_select r ocs).
   { unfold tr_select. cbn [tr_names tr_drows]. apply map_ext. intros row.
@@ -1212,16 +1338,14 @@ Proof.
 Qed.
 
 Theorem tr_reader_joined c rs cs : 0 < c -> tr_wf c (TrJoined rs) -> NoDup cs -> incl cs (flat_map tr_names rs) ->
-  (forall r, In r rs -> tr_req r (tr_sub (tr_names r) cs) /\ tr_req_inv r (tr_sub (tr_names r) cs)) ->
+  (forall r, In r rs -> tr_req_inv r (tr_sub (tr_names r) cs)) ->
   exists chs, tr_chunks (TrJoined rs) c (Some cs) = Ok chs
     /\ tr_read (TrJoined rs) (Some cs)
        = Ok (ch_whole cs (map (ch_select_row (flat_map tr_names rs) cs) (tr_hzip_all (map tr_drows rs))))
     /\ tr_chunked c cs (map (ch_select_row (flat_map tr_names rs) cs) (tr_hzip_all (map tr_drows rs))) chs.
 Proof.
   intros Hc Hwf Hnd Hincl Hm.
-  destruct (tr_reader_ok c (TrJoined rs) cs Hc Hwf Hnd Hincl
-                         (rq_joined rs cs (fun r Hr => proj1 (Hm r Hr)))
-                         (ri_joined rs cs (fun r Hr => proj2 (Hm r Hr))))
+  destruct (tr_reader_ok c (TrJoined rs) cs Hc Hwf Hnd Hincl (ri_joined rs cs Hm))
     as [chs [H1 [H2 [H3 _]]]].
   exists chs. auto.
 Qed.
@@ -1229,7 +1353,7 @@ Qed.
 Theorem tr_reader_computed c r k f g cs : 0 < c -> tr_wf c r -> ~ In k (tr_names r) ->
   (forall names rows, f names rows = Ok (map (g names) rows)) ->
   NoDup cs -> incl cs (tr_names r ++ [k]) ->
-  tr_req r (tr_without k cs) -> tr_req_inv r (tr_without k cs) ->
+  tr_req_inv r (tr_without k cs) ->
   f (tr_without k cs) (map (ch_select_row (tr_names r) (tr_without k cs)) (tr_drows r)) = f (tr_names r) (tr_drows r) ->
   exists chs, tr_chunks (TrComputed r k f) c (Some cs) = Ok chs
     /\ tr_read (TrComputed r k f) (Some cs)
@@ -1238,9 +1362,9 @@ Theorem tr_reader_computed c r k f g cs : 0 < c -> tr_wf c r -> ~ In k (tr_names
     /\ tr_chunked c cs (map (ch_select_row (tr_names r ++ [k]) cs)
                             (map (fun row => row ++ [g (tr_names r) row]) (tr_drows r))) chs.
 Proof.
-  intros Hc Hwf Hk Hf Hnd Hincl Hreq Hinv Hfi.
+  intros Hc Hwf Hk Hf Hnd Hincl Hinv Hfi.
   destruct (tr_reader_ok c (TrComputed r k f) cs Hc (wf_computed c r k f g Hwf Hk Hf) Hnd Hincl
-                         (rq_computed r k f cs Hreq) (ri_computed r k f cs (fun _ => Hfi) Hinv))
+                         (ri_computed r k f cs (fun _ => Hfi) Hinv))
     as [chs [H1 [H2 [H3 _]]]].
   assert (E : tr_select (TrComputed r k f) cs
               = map (ch_select_row (tr_names r ++ [k]) cs) (map (fun row => row ++ [g (tr_names r) row]) (tr_drows r))).
@@ -1278,10 +1402,10 @@ Proof.
     assert (E : Nat.eqb c 0 = false) by (apply Nat.eqb_neq; lia). rewrite E, tr_sform_false. reflexivity.
   - split; [reflexivity|]. cbn [tr_stream tr_names tr_drows tr_eb].
     assert (E : Nat.eqb c 0 = false) by (apply Nat.eqb_neq; lia). rewrite E, tr_csv_frames_sform. reflexivity.
-  - inversion Hwf as [| |t' ? ? Ht Hb| | |]; subst.
+  - inversion Hwf as [| |t' ? ? Ht Hne0 Hb| | |]; subst.
     split; [reflexivity|]. cbn [tr_stream tr_names tr_drows tr_eb].
     assert (E : Nat.eqb c 0 = false) by (apply Nat.eqb_neq; lia). rewrite E.
-    rewrite tr_pq_frames_ok by assumption. rewrite tr_sform_false. reflexivity.
+    rewrite (tr_pq_frames_ok c) by assumption. rewrite tr_sform_false. reflexivity.
   - inversion Hwf as [| | |r' m' Hr Hndm| |]; subst.
     destruct (IH Hr) as [H1 H2]. split.
     + cbn [tr_read tr_names tr_drows]. rewrite H1. reflexivity.
